@@ -18,9 +18,16 @@ HERE = build.VERIF
 
 
 def main(argv):
-    sel = argv[0] if argv else ""
+    # selectors: <id substring> | prop=Cxx (mutants whose own or listed checks include Cxx) | shard=i/n (every n-th, for parallel runs)
+    opts = dict(a.split("=", 1) for a in argv if "=" in a)
+    sel = next((a for a in argv if "=" not in a), "")
     muts = json.load(open(os.path.join(HERE, "selftest", "mutants.json")))
     muts = [m for m in muts if sel in m["id"]]
+    if "prop" in opts:
+        muts = [m for m in muts if m["prop"] == opts["prop"] or opts["prop"] in (m.get("all_checks") or [])]
+    if "shard" in opts:
+        i_, n_ = [int(x) for x in opts["shard"].split("/")]
+        muts = muts[i_::n_]
     wt = tempfile.mkdtemp(prefix="verif_selftest_")
     ev = tempfile.mkdtemp(prefix="verif_selftest_ev_")
     os.rmdir(wt)
@@ -87,7 +94,7 @@ def main(argv):
         subprocess.call(["git", "-C", "/repo", "worktree", "remove", "--force", wt])
         shutil.rmtree(wt, ignore_errors=True)
         shutil.rmtree(ev, ignore_errors=True)
-    if not sel:
+    if not sel and not opts:
         with open(os.path.join(HERE, "selftest", "results.json"), "w") as f:
             json.dump(results, f, indent=1)
     print("selftest: %d mutants, %d not as expected" % (len(results), bad))
